@@ -1017,7 +1017,9 @@ fn faulty_case(out: &mut Out, rng: &mut Rng) {
         if birth_lost {
             // the marker `nl=1` (ignored by srad and by the model) tells the publish-order oracle
             // that this publisher session is not delimited by an NBIRTH at the host
-            if let Some(m) = q.first_mut() {
+            // (every message of the session carries it: the delivery list is mutated below and the first
+            // message may be the one that is lost - thorough tier, seed 3, case 109905)
+            for m in q.iter_mut() {
                 m.body.push_str(" nl=1");
             }
         }
